@@ -283,6 +283,55 @@ t("raw_log", "b", None, "raw_log([{0}, {1}], {2})", [B32, B32, BY])
 t("raw_log", "b32", None, "raw_log([{0}], {1})", [B32, B32])
 t("raw_log", "none", None, "raw_log([], {0})", [BY])
 t("raw_revert", "", None, "raw_revert({0})", [BY])
+
+# ---- other consumers of an argument shape (pseudo builtins, names start with "@")
+CONSUMER_TYPES = [U256, I128, DEC, BOOL, ADDR, B32, BY, ST, ARR2, DYNB]
+WORD_TYPES = (U256, U8, I128, I256, DEC, BOOL, ADDR, B32, B4)
+for ty in CONSUMER_TYPES:
+    sn = short(ty)
+    t("@log", sn, None, "log Ev_(x={0}, y=b_)", [ty], decls=[f"event Ev_:\n    x: {ty}\n    y: bool\n"])
+    if ty in WORD_TYPES:
+        t("@log_indexed", sn, None, "log Ei_(x={0}, y=b_)", [ty], decls=[f"event Ei_:\n    x: indexed({ty})\n    y: bool\n"])
+    t("@store", sn, None, "self.zz_ = {0}", [ty], decls=[f"zz_: {ty}"])
+    t("@tstore", sn, None, "self.tz_ = {0}", [ty], decls=[f"tz_: transient({ty})"])
+    t("@return", sn, ty, "{0}", [ty])
+    t("@tuple_ret", sn, f"({ty}, uint256)", "{0}, 7", [ty])
+    t("@extcall", sn, None, "extcall If_(msg.sender).g({0})", [ty], decls=[f"interface If_:\n    def g(x: {ty}): nonpayable\n"])
+    t("@staticcall", sn, ty, "staticcall Ig_(msg.sender).h({0})", [ty], decls=[f"interface Ig_:\n    def h(x: {ty}) -> {ty}: view\n"])
+    t("@internal_arg", sn, ty, "self._g_({0})", [ty], helpers=[f"@internal\ndef _g_(x: {ty}) -> {ty}:\n    return x\n"])
+    t("@internal_default", sn, ty, "self._d_()", [], helpers=[f"@internal\ndef _d_(x: {ty} = {LITS[ty][0]}) -> {ty}:\n    return x\n"])
+    if ty != DYNB:
+        t("@append", sn, None, "self.dz_.append({0})", [ty], decls=[f"dz_: DynArray[{ty}, 4]"])
+        t("@struct", sn, "W_", "W_(x={0}, y=1)", [ty], decls=[f"struct W_:\n    x: {ty}\n    y: uint256\n"])
+        t("@list_lit", sn, f"DynArray[{ty}, 3]", "[{0}, {1}]", [ty, ty])
+    if ty not in (ARR2, DYNB):
+        t("@eq", sn, BOOL, "{0} == {1}", [ty, ty])
+        t("@ne", sn, BOOL, "{0} != {1}", [ty, ty])
+    t("@ifexp_branch", sn, ty, "{0} if b_ else {1}", [ty, ty])
+t("@assert_reason", "", None, "assert b_, {0}", [ST])
+t("@raise_reason", "", None, "raise {0}", [ST])
+t("@if", "", U256, "1 if {0} else 2", [BOOL])
+t("@not", "", BOOL, "not {0}", [BOOL])
+t("@range_bound", "", None, "for i_: uint256 in range({0}, bound=4):\n        self.cnt_ += i_", [U256], decls=["cnt_: uint256"])
+t("@range_start", "", None, "for i_: uint256 in range({0}, {0} + 2):\n        self.cnt_ += i_", [U256], decls=["cnt_: uint256"])
+t("@index_static", "", U256, "self.ia_[{0}]", [U256], decls=["ia_: uint256[3]"])
+t("@index_dyn", "", U256, "self.id_[{0}]", [U256], decls=["id_: DynArray[uint256, 3]"])
+t("@hashmap_key_b", "", U256, "self.hb_[{0}]", [BY], decls=["hb_: HashMap[Bytes[64], uint256]"])
+t("@hashmap_key_s", "", U256, "self.hs_[{0}]", [ST], decls=["hs_: HashMap[String[64], uint256]"])
+t("@hashmap_key_a", "", U256, "self.ha_[{0}]", [ADDR], decls=["ha_: HashMap[address, uint256]"])
+t("@in_list", "", BOOL, "{0} in [1, 2, 3]", [U256])
+t("@in_dyn", "", BOOL, "{0} in {1}", [B32, DYNB])
+t("@send_value", "", None, "send(msg.sender, {0})", [U256])
+for op in ("+", "-", "*", "//", "%", "**", "<<", ">>", "&", "|", "^", "<", ">="):
+    t("@binop", op, BOOL if op in ("<", ">=") else U256, "{0} " + op + " {1}", [U256, U256])
+for op in ("+", "-", "*", "//", "%", "<"):
+    t("@binop_i", op, BOOL if op == "<" else I128, "{0} " + op + " {1}", [I128, I128])
+for op in ("+", "-", "*", "/", "<"):
+    t("@binop_d", op, BOOL if op == "<" else DEC, "{0} " + op + " {1}", [DEC, DEC])
+t("@neg", "", I128, "-{0}", [I128])
+t("@invert", "", U256, "~{0}", [U256])
+t("@and", "", BOOL, "{0} and {1}", [BOOL, BOOL])
+t("@or", "", BOOL, "{0} or {1}", [BOOL, BOOL])
 TEMPLATES = T_
 
 
@@ -309,6 +358,8 @@ def build(tpl, hole, shape):
     if tpl["flags"].get("payable"):
         P.payable = True
     call = tpl["fmt"].format(*exprs)
+    P.decls = list(tpl["flags"].get("decls", [])) + P.decls
+    P.helpers = list(tpl["flags"].get("helpers", [])) + P.helpers
     out = list(dict.fromkeys(P.decls))
     if P.init:
         out.append("@deploy\ndef __init__():\n" + "".join(f"    {x}\n" for x in P.init))
@@ -340,7 +391,7 @@ def all_cases():
 
 
 def covered_builtins():
-    return {tpl["builtin"] for tpl in TEMPLATES}
+    return {tpl["builtin"] for tpl in TEMPLATES if not tpl["builtin"].startswith("@")}
 
 
 def calldata(params, which):
@@ -355,3 +406,24 @@ def calldata(params, which):
         else:
             vals.append({"Bytes[8]": (b"12345678", b""), "String[8]": ("12345678", "")}[ty][which])
     return types, vals
+
+
+# (builtin, template id, hole, shape): cases that exposed a defect once -- always part of the quick sample
+REGRESSION = [
+    ("abi_encode", "1b", 0, "constant"), ("_abi_encode", "2", 1, "constant"), ("extract32", "u", 0, "empty"), ("extract32", "", 0, "empty"),
+    ("convert", "Bytes_32->bytes32", 0, "empty"), ("convert", "Bytes_32->uint256", 0, "empty"), ("len", "dyn", 0, "constant"),
+    ("len", "bytes", 0, "convert"), ("len", "string", 0, "convert"), ("raw_create", "", 0, "immutable"), ("raw_create", "", 0, "convert"),
+    ("convert", "uint256->bytes4", 0, "calldata"), ("convert", "uint256->decimal", 0, "max_value"), ("convert", "int128->uint256", 0, "min_value"),
+    ("abi_decode", "u", 0, "ifexp_const"), ("abi_decode", "tup", 0, "slice_res"), ("convert", "int128->uint256", 0, "ifexp_const"),
+    ("uint2str", "u", 0, "ifexp_rt"), ("uint2str", "u8", 0, "ifexp_const"), ("abi_decode", "u", 0, "convert"), ("concat", "bb", 0, "empty"),
+    ("uint2str", "u8", 0, "convert"), ("uint256_addmod", "", 2, "empty"), ("keccak256", "bytes", 0, "constant"), ("slice", "bytes", 0, "empty"),
+]
+
+
+def regression_cases():
+    out = []
+    for b, tid, h, sh in REGRESSION:
+        for tpl in TEMPLATES:
+            if tpl["builtin"] == b and tpl["id"] == tid:
+                out.append((tpl, h, sh))
+    return out
